@@ -68,12 +68,16 @@ fn control_flow(ctx: &Ctx, homes: &(dyn Fn(Kind) -> bool + Sync), rich_entries: 
     let reach = reachable_starts(ctx, &starts.genesis, reach_depth, homes, &mut st);
     st = st.merge(drive(ctx, &Core::new(1, reach_hi), &reach, false, homes, &sampler));
     let nstarts = all.len() + reach.len();
+    // contracts built through ContractWrapper: what the Reply envelope carries for every kind of
+    // sub-message (C03) / a dispatcher without a reply entry point absorbs nothing (C02)
+    let wrapper_cases = if data_event_variants { super::envelope::reply_envelope_stage(ctx) } else { super::envelope::no_reply_stage(ctx) };
+    st.programs += wrapper_cases;
     finish(
         ctx,
         &st,
         nstarts,
         &sampler,
-        json!({"core_size_max_from_genesis": core_hi, "core_size_max_from_fixed_states": small_hi, "rich_size_max": rich_hi,
+        json!({"contract_wrapper_stage_cases": wrapper_cases, "core_size_max_from_genesis": core_hi, "core_size_max_from_fixed_states": small_hi, "rich_size_max": rich_hi,
                "reachable_start_states": reach.len(), "reachable_depth": reach_depth, "core_size_max_from_reachable_states": reach_hi,
                "data_event_family_size_max": if data_event_variants { 3 } else { 0 }}),
         vec![],
